@@ -160,12 +160,26 @@ func WireFileSource(w *spec.WCase, f *spec.WFile) string {
 		}
 	}()
 	var body strings.Builder
+	if f.VarBlock && len(f.Sets) > 0 {
+		body.WriteString("var (\n")
+	}
 	for i := range f.Sets {
 		s := &f.Sets[i]
-		fmt.Fprintf(&body, "var %s = wire.NewSet(\n", s.Name)
+		if f.VarBlock {
+			fmt.Fprintf(&body, "\t%s = wire.NewSet(\n", s.Name)
+		} else {
+			fmt.Fprintf(&body, "var %s = wire.NewSet(\n", s.Name)
+		}
 		for j := range s.Elems {
 			fmt.Fprintf(&body, "\t%s,\n", wireElem(w, &s.Elems[j]))
 		}
+		if f.VarBlock {
+			body.WriteString("\t)\n")
+		} else {
+			body.WriteString(")\n\n")
+		}
+	}
+	if f.VarBlock && len(f.Sets) > 0 {
 		body.WriteString(")\n\n")
 	}
 	for i := range f.Injectors {
@@ -214,8 +228,17 @@ func WireFileSource(w *spec.WCase, f *spec.WFile) string {
 			}
 		}
 	}
+	if f.WireAlias != "" {
+		// google/wire imported under another name
+		src = strings.ReplaceAll(src, "wire.", f.WireAlias+".")
+		src = strings.Replace(src, "\"github.com/google/wire\"", f.WireAlias+" \"github.com/google/wire\"", 1)
+	}
 	if f.Tag {
-		src = "//go:build wireinject\n\n" + src
+		if f.LegacyTag {
+			src = "//go:build wireinject\n// +build wireinject\n\n" + src
+		} else {
+			src = "//go:build wireinject\n\n" + src
+		}
 	}
 	return src
 }
